@@ -65,7 +65,7 @@ def run(ctx, res):
     cases = build_cases(ctx)
     root = scenarios_a.assign_persist(cases, "c06", lambda i, c: ((c.pop("_fmt", None) or ["json", "pickle"][i % 2]) if c.pop("_persist") else None))
     from harness.impl import slowsave
-    slowsave.run_all(res, ID)       # a scheduled save still being written (own thread) when stop() is called: real threads
+    slowsave.run_all(res, ID, thorough=(ctx.tier == "thorough"))       # a scheduled save still being written (own thread) when stop() is called: real threads
     try:
         recs = gwcheck.run_cases(ctx, res, cases, MONITORS, SCOPE, "c06")
     finally:
